@@ -45,10 +45,12 @@ def counters(R, prog):
                    key_fn=lambda ev, fn=fn: '%s.K13:%s:inc-new-after-move' % (P, fn),
                    describe=lambda ev: 'new vCPU nthreads++ follows every th->vcpu reassignment before the next move / exit', min_sites=2, what='exit')
         # who holds what while moving
-        need = {'photon::do_thread_migrate': lambda st: an.has_lock(st, 'RUNQ', 'fg') and an.has_lock(st, 'th->lock'),
-                'photon::ws_scan_q': lambda st: an.has_lock(st, 'th->lock'),
-                'photon::ws_scan_standbyq': lambda st: an.has_lock(st, 'th->lock') and an.has_lock(st, 'u->standbyq.lock')}[fn]
-        K.check_at(R, P + '.K2', G, res, wv, require=lambda st, ev, need=need: need(st),
+        moved = lambda ev: (ev.path(ev.e['l']) or '').rsplit('->', 1)[0]          # the thread whose vcpu field is written
+        victim = K.param(G.root, 1) if fn == 'photon::ws_scan_standbyq' else None   # (v, u): u is the victim vCPU
+        need = {'photon::do_thread_migrate': lambda st, ev: an.has_lock(st, 'RUNQ', 'fg') and an.has_lock(st, moved(ev) + '->lock'),
+                'photon::ws_scan_q': lambda st, ev: an.has_lock(st, moved(ev) + '->lock'),
+                'photon::ws_scan_standbyq': lambda st, ev: an.has_lock(st, moved(ev) + '->lock') and an.has_lock(st, '%s->standbyq.lock' % victim)}[fn]
+        K.check_at(R, P + '.K2', G, res, wv, require=lambda st, ev, need=need: need(st, ev),
                    key_fn=lambda ev, fn=fn: '%s.K2:%s:move-under-locks' % (P, fn),
                    describe=lambda ev: 'thread moved between vCPUs only with its thread lock (and the queue lock) held', min_sites=1, what='vcpu write')
     # only stealable threads are moved (a sleeper still linked in the victim's sleep queue must be resumed by its own vCPU)
@@ -80,8 +82,9 @@ def counters(R, prog):
                    describe=lambda ev: 'a thread changes vCPU in the stealer only if stealable() held for it (work stealing allowed and not linked in a sleep queue)',
                    min_sites=1, what='vcpu write')
     # ws_scan_q requires the victim queue lock at both call sites
-    for caller, lock in (('photon::ws_scan_runq', ('u->runq_lock', 'bg')), ('photon::ws_scan_standbyq', ('u->standbyq.lock', None))):
+    for caller, lock in (('photon::ws_scan_runq', ('%s->runq_lock', 'bg')), ('photon::ws_scan_standbyq', ('%s->standbyq.lock', None))):
         G = K.build(R, prog, caller)
+        lock = (lock[0] % K.param(G.root, 1), lock[1])         # (v, u): the victim is the second parameter
         res = an.run(G, [an.LockTracker()])
         K.check_at(R, P + '.K2', G, res, lambda ev: ev.kind == 'call' and ev.callee() == 'photon::ws_scan_q',
                    require=lambda st, ev, lock=lock: an.has_lock(st, lock[0], lock[1]),
@@ -222,9 +225,10 @@ def death_and_join(R, prog):
     # migration
     G = K.build(R, prog, 'photon::do_thread_migrate')
     res = an.run(G, [an.LockTracker(), an.GuardTracker(lambda k: True)])
+    th = K.param(G.root, 0)
     K.check_at(R, P + '.K6', G, res, lambda ev: ev.kind == 'call' and ev.callee() == 'photon::AtomicRunQ::remove_from_list',
-               require=lambda st, ev: an.has_lock(st, 'RUNQ', 'fg') and an.has_lock(st, 'th->lock') and
-               any(re.match(r'^G:th->state == 0=T$', x) or x == 'G:th->state=F' for x in st) and any(re.match(r'^G:th->vcpu == photon::CURRENT->vcpu=T$', x) for x in st),
+               require=lambda st, ev: ev.arg_path(0) == th and an.has_lock(st, 'RUNQ', 'fg') and an.has_lock(st, th + '->lock') and
+               (('G:%s->state == 0=T' % th) in st or ('G:%s->state=F' % th) in st) and ('G:%s->vcpu == photon::CURRENT->vcpu=T' % th) in st,
                key_fn=lambda ev: P + '.K6:photon::do_thread_migrate:retest-under-locks',
                describe=lambda ev: 'thread leaves the run queue only after READY && same-vCPU was re-tested under AtomicRunQ + thread lock', min_sites=1)
 
